@@ -181,7 +181,9 @@ func c09Gen(c *engine.C) engine.Case {
 	}
 	header := engine.PickTag(c, "header-comment", "", "// TODO: file header", "/* é */", "/**\n * TODO (amy) doc header\n */", "#", "//",
 		// messages that are long in bytes but not in characters
-		"// TODO: 这个方法需要重新设计因为它现在做了太多的事情而且很难测试请在下个版本之前完成", "// FIXME(zoë): vérifier que la réservation reste cohérente après l'échec, ça dépend")
+		"// TODO: 这个方法需要重新设计因为它现在做了太多的事情而且很难测试请在下个版本之前完成", "// FIXME(zoë): vérifier que la réservation reste cohérente après l'échec, ça dépend",
+		// block TODO comments whose inner lines are empty, hold only white space, or end in a carriage return
+		"/* TODO(bob): first line\n   \n\t\n * second line */", "/*\n * TODO: gutter\n *\n\n */", "/* TODO(cr): windows line\r\n\r\n * next\r\n */")
 	if header == "#" {
 		header = "" // '#' is not Java; the todo scan's hash comments are C17's subject
 	}
